@@ -38,7 +38,10 @@ Inst(hh, h, hn, n, c, kb) == Path("inst", hh, h, hn, n, c, kb)
 (* userinfo                                                                *)
 (* DNS name with a hyphen inside a label                                   *)
 HyHost == <<"a", "mi", "B", "dot", "a">>
-Hosts == {<<>>, <<"a">>, <<"A", "dot", "b", "col", "N5">>,
+(* IPv6 literal with a zone ID, delimiter %25 (RFC 6874), + port           *)
+ZoneHost == <<"lb", "H", "N1", "col", "col", "h", "pz", "a", "rb", "col",
+              "N5">>
+Hosts == {<<>>, <<"a">>, <<"A", "dot", "b", "col", "N5">>, ZoneHost,
           <<"lb", "col", "col", "N1", "rb", "col", "N5">>,
           <<"lb", "H", "N1", "col", "col", "h", "rb", "col", "N5">>,
           <<"a", "col", "b", "at", "A">>, HyHost}
@@ -89,9 +92,10 @@ Others == {Val("boolean", "", <<"T">>, <<>>), Val("boolean", "", <<"F">>, <<>>),
            Val("datetime", "", <<"DT">>, <<>>),
            Val("datetime", "", <<"DI">>, <<>>),
            Val("datetime", "", <<"DTs">>, <<>>),
-           Val("datetime", "", <<"DIs">>, <<>>),
-           Val("char16", "", <<"a">>, <<>>), Val("char16", "", <<"dq">>, <<>>),
-           Val("char16", "", <<"bs">>, <<>>), Val("char16", "", <<"sq">>, <<>>)}
+           Val("datetime", "", <<"DIs">>, <<>>)}
+          \* char16-typed keys (pywbem.Char16 objects) over the whole string
+          \* alphabet (incl. both quotes, backslash, newline)
+          \cup {Val("char16", "", <<c>>, <<>>) : c \in StrAlpha}
 Values == {Str(s) : s \in Strings \cup Special} \cup Ints \cup Reals
           \cup Others
 U2 == {Inst(FALSE, <<>>, FALSE, <<>>, <<"A">>, <<KB(<<"a">>, v)>>) :
@@ -120,7 +124,8 @@ Inner3 == {Inst(FALSE, <<>>, hn, IF hn THEN <<"a">> ELSE <<>>, <<"b">>,
                     Str(<<"a", "lf">>), IntV("py", <<"N1">>),
                     RealV("py", <<"N1", "dot", "N5", "ex">>),
                     Val("datetime", "", <<"DI">>, <<>>),
-                    Val("datetime", "", <<"DTs">>, <<>>)}}
+                    Val("datetime", "", <<"DTs">>, <<>>),
+                    Val("char16", "", <<"sq">>, <<>>)}}
 Inner2 == {Inst(h # <<>>, h, h # <<>>, IF h # <<>> THEN <<"a">> ELSE <<>>,
                 <<"B">>, <<KB(<<"A">>, v)>>) :
              h \in {<<>>, <<"A">>, Ip6NoPort},
@@ -132,6 +137,10 @@ U4 == {Inst(FALSE, <<>>, TRUE, <<"a">>, <<"a">>, kb) :
                 \* a reference to a path on a host with a hyphen
                 \cup {<<KB(<<"a">>,
                            Ref(Inst(TRUE, HyHost, TRUE, <<"a">>, <<"B">>,
+                                    One)))>>}
+                \* a reference to a path on an IPv6 host with a zone ID
+                \cup {<<KB(<<"a">>,
+                           Ref(Inst(TRUE, ZoneHost, TRUE, <<"a">>, <<"B">>,
                                     One)))>>}
                 \* a reference next to a reduced precision datetime key
                 \cup {<<KB(<<"b">>, Ref(q)),
